@@ -75,12 +75,25 @@ def run(tier, seed):
                     cases.append({"arch": arch, "stmts": stmts, "src": src, "files": {"/three.bin": b"\x01\x02\x03"},
                                   "note": f"{name}:{'k' if known else 'l'}:{ln - k}"})
                     hist[name.split(":")[0]] = hist.get(name.split(":")[0], 0) + 1
-        # @align padding and ADDR-segment statements at the top
-        for start, al in [(0xFFFD, 4), (0xFFFF, 2), (0xFFFF, 4), (0xFFF1, 16), (0xFFFF, 0x8000)]:
-            cases.append({"arch": arch, "stmts": [("org", ("num", start)), ("align", ("num", al)), ("label", "after")],
-                          "src": f"@org ${start:x}\n@align {al}\nafter:\n", "note": "align"})
-            cases.append({"arch": arch, "stmts": [("segment", False), ("org", ("num", start)), ("align", ("num", al)), ("dbstr", b"\0"), ("label", "after")],
-                          "src": f'@segment "ADDR"\n@org ${start:x}\n@align {al}\n@db\nafter:\n', "note": "addr-align"})
+        # @align paddings (powers of two and not) and every ADDR-segment statement form at the top
+        for start in range(0xFFF8, 0x10000):
+            for al in (2, 3, 4, 5, 6, 7, 8, 10, 16, 100, 0x300, 0x8000, 0xFFFF):
+                cases.append({"arch": arch, "stmts": [("org", ("num", start)), ("align", ("num", al)), ("label", "after")],
+                              "src": f"@org ${start:x}\n@align {al}\nafter:\n", "note": f"align:{TOP - start}:{al}"})
+                cases.append({"arch": arch, "stmts": [("segment", False), ("org", ("num", start)), ("align", ("num", al)), ("label", "after")],
+                              "src": f'@segment "ADDR"\n@org ${start:x}\n@align {al}\nafter:\n', "note": f"addr-align:{TOP - start}:{al}"})
+                hist["align"] = hist.get("align", 0) + 2
+        for name, ln, sts, line in [("addr-db", 1, [("dbstr", b"\0")], "@db"), ("addr-dw", 2, [("dw", ("num", 0))], "@dw"),
+                                    ("addr-ds", 3, [("ds", ("num", 3), None)], "@ds 3"), ("addr-ds0", 0, [("ds", ("num", 0), None)], "@ds 0")]:
+            for k in range(0, ln + 3):
+                start = TOP - k
+                if start > 0xFFFF:
+                    pre, pre_src = [("org", ("num", 0xFFFF)), ("dbstr", b"\0")], "@org $ffff\n@db\n"
+                else:
+                    pre, pre_src = [("org", ("num", start))], f"@org ${start:x}\n"
+                cases.append({"arch": arch, "stmts": [("segment", False)] + pre + sts + [("label", "after")],
+                              "src": '@segment "ADDR"\n' + pre_src + line + "\nafter:\n", "note": f"{name}:{ln - k}"})
+                hist[name] = hist.get(name, 0) + 1
     # random programs approaching the top of memory
     for i in range(300 if tier == "quick" else 5000):
         arch = rng.choice(["6502", "z80", "sm83"])
